@@ -121,6 +121,83 @@ end Flatland.C12.Proofs
 namespace Flatland.C12.Proofs
 open Flatland.Markup Flatland.C12 Flatland.C19.Proofs
 
+/-- the name transform leaves every attribute other than `name` (and its option) alone -/
+theorem transformName_frame {T : Tables} {tag : Str} {bnd : Option Bind} {st st' : TState} (k : Str)
+    (h : transformName T tag bnd st = .ok st') (h1 : k ≠ sName) (h2 : k ≠ "auto_name".toList) :
+    Dict.get? st'.attrs k = Dict.get? st.attrs k := by
+  unfold transformName at h
+  simp only [bind, Except.bind, pure, Except.pure] at h
+  cases hp : popToggle T "auto_name".toList st.attrs st.ctx with
+  | error e => rw [hp] at h; simp at h
+  | ok r =>
+    have hs := popToggle_shape hp
+    rw [hp] at h; simp only at h
+    repeat' split at h
+    all_goals first
+      | (simp at h; done)
+      | (simp only [pure, Except.pure, Except.ok.injEq] at h; subst h; simp only [hs]
+         first
+           | rw [Dict.get?_set_other _ _ _ _ h1, Dict.get?_erase_other _ _ _ h2]
+           | rw [Dict.get?_erase_other _ _ _ h2])
+
+/-- the value transform leaves every attribute other than value / checked / selected alone -/
+theorem transformValue_frame {T : Tables} {tag : Str} {bnd : Option Bind} {st st' : TState} (k : Str)
+    (h : transformValue T tag bnd st = .ok st') (h1 : k ≠ sValue) (h2 : k ≠ "auto_value".toList)
+    (h3 : k ≠ sChecked) (h4 : k ≠ sSelected) :
+    Dict.get? st'.attrs k = Dict.get? st.attrs k := by
+  unfold transformValue at h
+  simp only [bind, Except.bind, pure, Except.pure] at h
+  cases hp : popToggle T "auto_value".toList st.attrs st.ctx with
+  | error e => rw [hp] at h; simp at h
+  | ok r =>
+    have hs := popToggle_shape hp
+    rw [hp] at h; simp only at h
+    repeat' split at h
+    all_goals first
+      | (simp at h; done)
+      | (simp only [pure, Except.pure, Except.ok.injEq] at h; subst h; simp only [hs, toggleAttr]
+         (repeat' split) <;>
+         simp only [Dict.get?_set_other _ _ _ _ h1, Dict.get?_set_other _ _ _ _ h3, Dict.get?_set_other _ _ _ _ h4,
+           Dict.get?_erase_other _ _ _ h2, Dict.get?_erase_other _ _ _ h3, Dict.get?_erase_other _ _ _ h4])
+
+/-- names the transforms may write or delete: the generated attributes and the six options -/
+def touchKeys : List Str := generatedKeys ++ optionKeys
+
+/-- AUTHOR ATTRIBUTES PASS THROUGH: an attribute whose name is none of the generated ones
+    (name, value, id, for, tabindex, checked, selected) nor an option reaches the serialiser exactly as
+    the author gave it — whatever the tag, the bind and the context -/
+theorem transform_frame {T : Tables} {tag : Str} {bnd : Option Bind} {st st6 : TState} (k : Str)
+    (hk : k ∉ touchKeys) (h : transform T tag bnd st = .ok st6) :
+    Dict.get? st6.attrs k = Dict.get? st.attrs k := by
+  simp only [touchKeys, generatedKeys, optionKeys, List.cons_append, List.nil_append, List.mem_cons, List.not_mem_nil,
+    or_false, not_or] at hk
+  obtain ⟨k1, k2, k3, k4, k5, k6, k7, o1, o2, o3, o4, o5, o6⟩ := hk
+  unfold transform at h
+  simp only [bind, Except.bind] at h
+  cases h1 : transformName T tag bnd st with
+  | error e => rw [h1] at h; simp at h
+  | ok s1 =>
+    rw [h1] at h; simp only at h
+    cases h2 : transformValue T tag bnd s1 with
+    | error e => rw [h2] at h; simp at h
+    | ok s2 =>
+      rw [h2] at h; simp only at h
+      cases h3 : transformDomid T tag bnd s2 with
+      | error e => rw [h3] at h; simp at h
+      | ok s3 =>
+        rw [h3] at h; simp only at h
+        cases h4 : transformFor T tag bnd s3 with
+        | error e => rw [h4] at h; simp at h
+        | ok s4 =>
+          rw [h4] at h; simp only at h
+          cases h5 : transformTabindex T tag bnd s4 with
+          | error e => rw [h5] at h; simp at h
+          | ok s5 =>
+            rw [h5] at h; simp only at h
+            rw [(transformFilters_frame k h o6).1, (transformTabindex_frame k h5 k5 o5).1,
+              (transformFor_frame k h4 k4 o4 (Or.inr k2)).1, (transformDomid_frame k h3 k3 o3).1,
+              transformValue_frame k h2 k2 o2 k6 k7, transformName_frame k h1 k1 o1]
+
 /-- attributes a browser reads from a control; none of the later transforms writes them -/
 def controlKeys : List Str := [sName, sValue, sType, sChecked, sSelected]
 
@@ -244,5 +321,54 @@ theorem transformValue_check_gen (T : Tables) (b : Bind) (st : TState) (ty lit :
     hty, Option.getD_some, hck, hlit]
   simp only [ite_self, hm]
 
+
+/-- the name transform does nothing to a tag outside its table (no option on the tag) -/
+theorem transformName_skip (T : Tables) (tag : Str) (bnd : Option Bind) (st : TState)
+    (hen : Enabled T st.ctx "auto_name".toList) (hopt : Dict.get? st.attrs "auto_name".toList = none)
+    (htag : T.autoTag sName tag = false) :
+    transformName T tag bnd st = .ok st := by
+  have hp := hen st.attrs hopt
+  rw [erase_absent _ _ hopt] at hp
+  unfold transformName
+  simp only [bind, Except.bind, pure, Except.pure]
+  rw [hp]
+  cases bnd with
+  | none => rfl
+  | some b =>
+    simp only [Bool.not_true, Bool.false_eq_true, if_false, htag, Bool.and_false, Bool.or_self]
+    split <;> rfl
+
+/-- an `<option>` with a `value` attribute: `selected` is set exactly when the value matches -/
+theorem transformValue_option (T : Tables) (b : Bind) (st : TState) (lit : Val) (m : Bool)
+    (hen : Enabled T st.ctx "auto_value".toList) (hopt : Dict.get? st.attrs "auto_value".toList = none)
+    (hlit : Dict.get? st.attrs sValue = some lit) (hm : b.matches T (some lit) = .ok m)
+    (htag : T.autoTag sValue sOption = true) :
+    transformValue T sOption (some b) st = .ok { st with attrs := toggleAttr st.attrs sSelected m } := by
+  have hp := hen st.attrs hopt
+  rw [erase_absent _ _ hopt] at hp
+  unfold transformValue
+  simp only [bind, Except.bind, pure, Except.pure]
+  rw [hp]
+  have e1 : sOption ≠ sInput := by decide
+  simp only [Bool.not_true, Bool.false_eq_true, ↓reduceIte, htag, Bool.not_false, Bool.and_false, e1, hlit, hm]
+
+/-- a checkbox WITHOUT `value=` bound to a Boolean: `value` becomes `bind.true`, `checked` is set
+    exactly when the element's text is that value -/
+theorem transformValue_boolcheck (T : Tables) (b : Bind) (st : TState) (ty : Val) (tru : Str)
+    (hen : Enabled T st.ctx "auto_value".toList) (hopt : Dict.get? st.attrs "auto_value".toList = none)
+    (hty : Dict.get? st.attrs sType = some ty) (hck : ty.eqStr "checkbox".toList = true)
+    (hno : Dict.get? st.attrs sValue = none) (hkind : b.kind = .boolean tru)
+    (htag : T.autoTag sValue sInput = true) :
+    transformValue T sInput (some b) st =
+      .ok { st with attrs := toggleAttr (Dict.set st.attrs sValue (.text tru)) sChecked (tru == b.u) } := by
+  have hp := hen st.attrs hopt
+  rw [erase_absent _ _ hopt] at hp
+  have hm : b.matches T (some (.text tru)) = .ok (tru == b.u) := by
+    unfold Bind.matches; rw [hkind]; rfl
+  unfold transformValue
+  simp only [bind, Except.bind, pure, Except.pure]
+  rw [hp]
+  simp only [Bool.not_true, Bool.false_eq_true, ↓reduceIte, htag, Bool.not_false, Bool.and_false,
+    hty, Option.getD_some, hck, Bool.or_true, hno, hkind, hm]
 
 end Flatland.C12.Proofs
